@@ -106,6 +106,46 @@ def main() -> int:
                 continue
             if x["impl"] != x.get("model"):
                 disagreements.append({"suite": "T2-default-schema", "default_schema": S, "sql": x["rec"]["sql"], "impl": x["impl"][:1500], "model": x.get("model", "")[:1500]})
+    # every statement kind (DROP, RENAME, UPDATE, MERGE, CREATE ... incl. multi-statement scripts): template scripts in which
+    # exactly one table name ("w") is unqualified
+    import re
+    import gen_scripts
+    scripts = [x for x in gen_scripts.gen_records(r, 160 if quick else 2500) if not x.get("metadata")]
+    for rn in ("alter table s.a rename to w", "alter table w rename to s.b", "alter table s.a rename to s.b", "alter table w rename to w2"):
+        scripts.append({"sql": "insert into s.a select k from t.a;\n" + rn, "dialect": "ansi"})
+        scripts.append({"sql": "insert into w select k from t.a;\n" + rn + ";\ninsert into s.d select * from w", "dialect": "ansi"})
+    qualify = lambda sql: re.sub(r"(?<![\w.])(w2?)(?![\w.])", r"dflt.\1", sql)
+    plain_s = [{"sql": x["sql"], "dialect": "ansi", "metadata": None, "config": {}} for x in scripts]
+    scoped_s = t2tie.summaries([dict(x, config={"DEFAULT_SCHEMA": "dflt"}) for x in plain_s])
+    explicit_s = t2tie.summaries([dict(x, sql=qualify(x["sql"])) for x in plain_s])
+    nodefault_s = t2tie.summaries(plain_s)
+    dist["scripts"] = 0
+
+    def placeholder_form(summ):
+        """the summary with dflt. read as the placeholder, lists re-sorted (sorting is by printed name)"""
+        if "#" not in summ:
+            return summ
+        tabs, pairs = summ.replace("dflt.", "<default>.").split("#", 1)
+        rr, ww = tabs.split(";W=")
+        srt = lambda l, sep: sep.join(sorted(x for x in l.split(sep) if x))
+        return "R=" + srt(rr[2:], ",") + ";W=" + srt(ww, ",") + "#" + srt(pairs, ";")
+    for x, a, b, c in zip(plain_s, scoped_s, explicit_s, nodefault_s):
+        ck.count()
+        dist["scripts"] += 1
+        if b.startswith("ERR"):
+            if a != b or c != b:
+                spec_failures.append({"suite": "scripts-errors", "sql": x["sql"], "with_default_schema": a, "explicitly_qualified": b, "no_default": c,
+                                      "spec": "the same outcome with a default schema, with explicit qualification and without default"})
+            continue
+        if "#" in b and b.split("#")[0] != "R=;W=":
+            ck.nontriv(("script", x["sql"]))
+        if a != b:
+            spec_failures.append({"suite": "scripts-scoped-vs-explicit", "default_schema": "dflt", "sql": x["sql"], "qualified_sql": qualify(x["sql"]),
+                                  "with_default_schema": a, "explicitly_qualified": b,
+                                  "spec": "default schema S gives the same result as writing every unqualified table name as S.name"})
+        elif placeholder_form(c) != placeholder_form(b):
+            spec_failures.append({"suite": "scripts-placeholder", "sql": x["sql"], "no_default": c, "explicitly_qualified_with_placeholder": placeholder_form(b),
+                                  "spec": "with no default the placeholder schema is used uniformly for sources, targets and column owners"})
     # no default: the placeholder is used uniformly (= the specification with ds = "")
     spec0 = sqltie.spec_strings(stmts, ds="")
     for s, rec, a, sp in zip(stmts, sqltie.records(stmts), t2tie.summaries(sqltie.records(stmts)), spec0):
@@ -131,7 +171,7 @@ def main() -> int:
                 "scoped override, environment variable, explicit qualification and the specification were compared on every statement; no failing input")
     return ck.finish(rule="%d generated statements (2 of 7 table names unqualified, targets qualified or not) x default schema in {unset, fresh name, name already "
                           "used as a qualifier} x mechanism in {scoped override, environment variable in a fresh process, either combined with a scoped override of another option} x {plain, qualified names spelled as one "
-                          "quoted dotted identifier}; non-trivial = distinct (schema, SQL) with lineage" % n)
+                          "quoted dotted identifier}; template scripts over all statement kinds (DROP, RENAME, UPDATE, MERGE ...) with one unqualified table; non-trivial = distinct (schema, SQL) with lineage" % n)
 
 
 if __name__ == "__main__":
